@@ -168,6 +168,9 @@ VTEXT = {'450': ('450', '4.0.0 try again later'), '550': ('550', '5.0.0 refused'
 LONG = 4200          # an over-long line: longer than the 4096-byte reads of slimta.smtp.io.IO
 
 
+VERB_LABEL = {}      # 'V<spelling>' unit -> the class its mechanism names carry (filled by verb_spellings())
+
+
 class HandlerBoom(Exception):
     """Scripted verdict 'raise': the application's callback / validator fails."""
 
@@ -377,7 +380,8 @@ def not3(v):
 
 # ---------------------------------------------------------------- one monitored session
 
-PROTO_CBS = ('EHLO', 'HELO', 'MAIL', 'RCPT', 'DATA', 'HAVE_DATA', 'RSET', 'NOOP', 'QUIT', 'AUTH', 'STARTTLS', 'XCMD')
+PROTO_CBS = ('EHLO', 'HELO', 'MAIL', 'RCPT', 'DATA', 'HAVE_DATA', 'RSET', 'NOOP', 'QUIT', 'AUTH', 'STARTTLS', 'XCMD',
+             'BANNER_')      # BANNER_ belongs to the greeting only: from a command line it is a foreign callback
 
 
 class Run(object):
@@ -500,7 +504,7 @@ class Run(object):
 
     def violate(self, clause, what, with_state=True, tag=None, **detail):
         u = self.cur
-        parts = [clause, tag or (u.base if u is not None else 'BANNER_')]
+        parts = [clause, tag or (VERB_LABEL.get(u.base, u.base) if u is not None else 'BANNER_')]
         if u is not None and tag is None:
             # the scripted verdict is part of the class only if a callback actually ran (and could apply it)
             parts.append('verdict-' + (u.v2 if (u.kind == 'data' and self.stage >= 1) else u.v1)
@@ -621,7 +625,7 @@ class Run(object):
         if self.pos == -1:
             self.multi = False
             codes = [r[0] for r in replies]
-            names = [c[0] for c in cbs if c[0] in PROTO_CBS]
+            names = [c[0] for c in cbs if c[0] in PROTO_CBS and c[0] != 'BANNER_']
             self._stage_cb = bool(names)
             self.steps.append({'unit': '<banner>', 'line': None, 'stage': 0, 'replies': codes, 'group': 0,
                                'callbacks': [(c[0], c[1], c[2]) + ((c[3],) if c[3] else ()) for c in cbs],
@@ -924,7 +928,7 @@ class Run(object):
                          'after %s (replies %s) implementation state disagrees with the automaton: %s'
                          % (last['unit'], last['replies'],
                             '; '.join('%s=%r, automaton says %r' % b for b in bad)),
-                         tag='after-%s-%s' % (self.cur.base if self.cur else 'BANNER_',
+                         tag='after-%s-%s' % (VERB_LABEL.get(self.cur.base, self.cur.base) if self.cur else 'BANNER_',
                                               (last['replies'] or ['none'])[-1]), with_state=False,
                          automaton_after=self.state_class())
 
@@ -1046,6 +1050,69 @@ class LoggedSession(SmtpSessionX):
 for _n in dir(SmtpSessionX):
     if _n.isupper() and not _n.startswith('_') and callable(getattr(SmtpSessionX, _n)):
         setattr(LoggedSession, _n, _logged(_n))
+
+
+# ---------------------------------------------------------------- verbs spelled after internal names
+
+REAL_VERBS = {'EHLO': b' c%d.test', 'HELO': b' c%d.test', 'MAIL': b' FROM:<s%d@x.test>', 'RCPT': b' TO:<r%d@x.test>', 'DATA': b'',
+              'RSET': b'', 'NOOP': b'', 'QUIT': b'', 'STARTTLS': b'', 'AUTH': b' PLAIN ' + _PLAIN, 'XCMD': b' arg%d'}
+
+
+def internal_names():
+    """Every name the server's dispatch-by-name can resolve: Server._command_* and the public callables of the handler
+    objects (collected by introspection, so a callback added later is included)."""
+    names = set(n[len('_command_'):] for n in dir(Server) if n.startswith('_command_'))
+    for cls in (SmtpSession, SmtpSessionX, RecHandler):
+        names |= set(n for n in dir(cls) if not n.startswith('_') and callable(getattr(cls, n, None)))
+    return sorted(names)
+
+
+def _mixed(t):
+    return ''.join(c.lower() if i % 2 else c.upper() for i, c in enumerate(t))
+
+
+def verb_spellings():
+    """-> (all, core): wire spellings that are NOT a command of the protocol but resemble an internal name: '_' written as
+    '-', '_' or '.', a trailing '-' / '_', lower and mixed case; real verbs with a trailing or embedded '-' / '_';
+    a few punctuation-bearing unknown verbs.  All of them are 'bad' units: one error reply, no callback."""
+    allv, core, label = [], [], [None]
+
+    def add(text, arg, is_core=False):
+        key = 'V<%s%s>' % (text, '+arg' if arg else '')
+        if key in BASES or not text or text.isalpha():
+            return
+        BASES[key] = ('bad', text.encode('ascii') + arg, None, None)
+        VERB_LABEL[key] = label[0]
+        allv.append(key)
+        if is_core:
+            core.append(key)
+    for name in internal_names():
+        label[0] = 'verb-spelled-like-' + name
+        if name in REAL_VERBS:
+            arg = REAL_VERBS[name]
+            for i, t in enumerate((name + '-', name + '_', name[:2] + '-' + name[2:], name.lower() + '-')):
+                add(t, arg, is_core=(i == 0 and name in ('MAIL', 'EHLO', 'DATA', 'QUIT', 'XCMD')))
+            continue
+        parts = name.rstrip('_').split('_')
+        for sep in '-_.':
+            t = sep.join(parts) + (sep if name.endswith('_') else '')
+            for j, form in enumerate((t.upper(), t.lower(), _mixed(t))):
+                add(form, b' x', is_core=(sep == '-' and j == 0) or (sep == '-' and j == 1 and '_' in name.rstrip('_')))
+                if j == 0:
+                    add(form, b'', is_core=(sep == '-' and '_' in name))
+        if not name.endswith('_'):
+            add(name.upper() + '-', b' x', is_core=name.isalpha() and name.isupper())
+            add(name.upper() + '_', b' x')
+        if not name.isalpha():
+            add(name, b' x')                 # digits / underscore exactly as in the source
+    label[0] = 'punctuated-unknown-verb'
+    for t in ('X-FOO', 'X_FOO', 'FOO.BAR', 'X-FOO-BAR', 'x-foo', '-FOO', 'FOO-'):
+        add(t, b' bar', is_core=t in ('X-FOO', 'X_FOO', 'FOO.BAR'))
+        add(t, b'')
+    return allv, core
+
+
+VERBS_ALL, VERBS_CORE = verb_spellings()
 
 
 def make_validators(run):
@@ -1450,10 +1517,11 @@ def _case(mode, ext, kind, banner, syms, framing=1):
     return c
 
 
-def alphabet_for(ext, extra=False):
+def alphabet_for(ext, extra=False, verbs='core'):
+    """extra: + the EXTRA symbols and the verbs spelled after internal names (core subset, or all of them)."""
     feats = EXT_FEATURES[ext]
     out = []
-    for s in ALPHABET + (EXTRA if extra else []):
+    for s in ALPHABET + ((EXTRA + (VERBS_ALL if verbs == 'all' else VERBS_CORE)) if extra else []):
         b = s.split('/')[0]
         # without the extension these are all the same "unknown command": keep one representative each
         if 'AUTH' not in feats and b in AUTH_BASES and s != 'AUTH':
@@ -1659,6 +1727,15 @@ def gen_cases(tier, seed, shard, nshards):
     for i, c in enumerate(gen_pipelined(tier, seed)):
         if table[i % 100] == shard:
             yield c
+    # every spelling of a verb that resembles an internal name, at four points of a session (stop-and-wait and one burst)
+    n = 0
+    for ext, kind in CONFIGS:
+        for banner, prefix in (('550', []), ('ok', []), ('ok', ['EHLO']), ('ok', ['EHLO', 'MAIL', 'RCPT'])):
+            for v in VERBS_ALL:
+                for fr in (1, 0):
+                    if table[n % 100] == shard:
+                        yield _case('verbs', ext, kind, banner, prefix + [v, 'EHLO', 'MAIL', 'RCPT', 'DATA'], fr)
+                    n += 1
     # concurrent sessions
     for c in gen_concurrent(tier, seed, shard, table):
         yield c
@@ -1666,7 +1743,7 @@ def gen_cases(tier, seed, shard, nshards):
     rnd = random.Random('c07-%d-%d' % (seed, shard))
     for i in range((NWALKS[tier] + NPIPEWALKS[tier]) // nshards):
         ext, kind = rnd.choice(mine) if (mine and rnd.random() < 0.7) else rnd.choice(CONFIGS)
-        alpha = alphabet_for(ext, extra=True)
+        alpha = alphabet_for(ext, extra=True, verbs='all')
         syms = gen_walk(rnd, alpha)
         if rnd.random() < 0.8:
             syms[0] = rnd.choice(['EHLO', 'EHLO', 'HELO'])
